@@ -163,8 +163,20 @@ def make(interp):
         x = toz3(x); return z3.ToReal(z3.ToInt(x)) if z3.is_real(x) else x
     np = dict(jnp)
     np["log10"] = B(log10); np["floor"] = B(floor)
+    def dynamic_slice_in_dim(operand, start_index, slice_size, axis=0):
+        """jax.lax.dynamic_slice_in_dim: the start index is CLAMPED so that the slice fits (documented JAX behaviour)"""
+        if axis != 0: raise Unsupported("dynamic_slice_in_dim axis")
+        n = operand.shape[0]; st = start_index.get(()) if isinstance(start_index, SArr) and start_index.ndim == 0 else start_index
+        lo = A.Max(0, A.Min(st, interp.binop("Sub", n, slice_size)))
+        r = SArr((slice_size,) + tuple(operand.shape[1:]), lambda idx: operand.get((interp.binop("Add", lo, idx[0]),) + tuple(idx[1:])))
+        if operand.vec is not None: r.vec = lambda lidx: operand.vec((interp.binop("Add", lo, lidx[0]),) + tuple(lidx[1:]))
+        return r
+    def dynamic_slice(operand, start_indices, slice_sizes):
+        starts = list(start_indices); sizes = list(slice_sizes)
+        los = [A.Max(0, A.Min(st.get(()) if isinstance(st, SArr) and st.ndim == 0 else st, interp.binop("Sub", n, sz))) for st, sz, n in zip(starts, sizes, operand.shape)]
+        return SArr(tuple(sizes), lambda idx: operand.get(tuple(interp.binop("Add", lo, i) for lo, i in zip(los, idx))))
     jax = {"vmap": B(vmap, "vmap"), "pmap": B(pmap, "pmap"), "jit": B(jit, "jit"), "numpy": jnp,
-           "lax": {"scan": B(scan, "scan")},
+           "lax": {"scan": B(scan, "scan"), "dynamic_slice_in_dim": B(dynamic_slice_in_dim), "dynamic_slice": B(dynamic_slice)},
            "devices": B(lambda: SArr((interp.env_device_count,), lambda idx: "device")),
            # placement only: values are unchanged (assumed contract; real device/sharding behaviour is exercised by the multi-device harness)
            "device_get": B(lambda x: x, "device_get"), "device_put": B(lambda x, device=None, **k: x, "device_put"),
